@@ -71,7 +71,8 @@ class WorkerRegistry(collections.UserDict[str, float | None]):
   def register(self, address: str, time_: float):
     """Register a new client."""
     with self._lock:
-      self.data[address] = time_
+      # Heartbeats of concurrent requests never move the record backwards.
+      self.data[address] = max(self.data.get(address) or 0, time_)
     logging.info('chainable: %s', f'registering worker "{address}"')
 
   def unregister(self, address: str):
